@@ -237,7 +237,7 @@ Lemma dec_fuel_digits : forall fuel n acc,
 Proof.
   induction fuel as [|f IH]; intros n acc Hacc; simpl; [exact Hacc|].
   assert (Hd : is_digit (n mod 10 + 48)%N = true).
-  { pose proof (N.mod_lt n 10 ltac:(lia)). unfold is_digit. lia. }
+  { pose proof (N.mod_lt n 10 ltac:(lia)) as Hm. unfold is_digit. generalize dependent (n mod 10)%N. intros m Hm. lia. }
   destruct (N.ltb n 10).
   - simpl. rewrite Hd, Hacc. reflexivity.
   - apply IH. simpl. rewrite Hd, Hacc. reflexivity.
@@ -325,11 +325,11 @@ Proof.
   destruct c as [p|ids|hs|ks|z|z|n vs]; unfold wf_cond; intros H; unfold cond_toks.
   - cbn [wf_toks forallb wf_tok]. rewrite no_nul_app, (hex_no_nul p H). reflexivity.
   - rewrite wf_toks_app. rewrite in_list_wf; [reflexivity|].
-    rewrite forallb_map. revert H. apply forallb_impl. intros h Hh. cbn [wf_toks forallb wf_tok]. rewrite Hh. reflexivity.
+    rewrite forallb_map. revert H. apply forallb_impl. intros h Hh. cbn [wf_toks forallb wf_tok]. unfold hex_str in Hh. rewrite Hh. reflexivity.
   - rewrite !wf_toks_app. rewrite in_list_wf.
     + rewrite tag_subselect_wf; [reflexivity | reflexivity |].
       revert H. apply forallb_impl. intros h Hh. apply andb_true_iff in Hh. apply hex_no_nul. tauto.
-    + rewrite forallb_map. revert H. apply forallb_impl. intros h Hh. cbn [wf_toks forallb wf_tok]. rewrite Hh. reflexivity.
+    + rewrite forallb_map. revert H. apply forallb_impl. intros h Hh. cbn [wf_toks forallb wf_tok]. unfold hex_str in Hh. rewrite Hh. reflexivity.
   - cbn [wf_toks forallb]. change (wf_tok (kw "kind")) with true. cbn [andb].
     change (forallb wf_tok (in_list (map num_toks ks))) with (wf_toks (in_list (map num_toks ks))).
     apply in_list_wf. rewrite forallb_map. apply forallb_forall. intros k _. apply num_toks_wf.
@@ -355,8 +355,8 @@ Lemma query_toks_wf q :
 Proof.
   intros H. unfold query_toks. rewrite !wf_toks_app.
   change (wf_toks select_head) with true. cbn [andb].
-  unfold select_tail. rewrite wf_toks_app, num_toks_wf, andb_true_r.
-  change (wf_toks [kw "ORDER"; kw "BY"; kw "created_at"; kw "DESC"; kw "LIMIT"]) with true. rewrite andb_true_r.
+  unfold select_tail. rewrite wf_toks_app, num_toks_wf.
+  change (wf_toks [kw "ORDER"; kw "BY"; kw "created_at"; kw "DESC"; kw "LIMIT"]) with true. cbn [andb]. rewrite andb_true_r.
   unfold where_toks. destruct (query_groups q) as [|g gs] eqn:E; [reflexivity|].
   rewrite !wf_toks_app. change (wf_toks [kw "WHERE"; sy "("]) with true. change (wf_toks [sy ")"]) with true.
   rewrite andb_true_r. cbn [andb]. apply sep_by_wf; [reflexivity|].
